@@ -6,6 +6,17 @@ use crate::engine::{Avx2, Ssse3};
 #[cfg(target_arch = "aarch64")]
 use crate::engine::Neon;
 
+// Under `verif-hooks` real detection can be restricted by a feature mask.
+#[cfg(all(
+    feature = "verif-hooks",
+    any(target_arch = "x86", target_arch = "x86_64")
+))]
+macro_rules! is_x86_feature_detected {
+    ($feature:tt) => {
+        (std::is_x86_feature_detected!($feature) && crate::verif_hooks::feature_allowed($feature))
+    };
+}
+
 // ======================================================================
 // DefaultEngine - PUBLIC
 
